@@ -106,7 +106,7 @@ Proof.
   - (* Create *)
     unfold do_create in E.
     destruct (match lookup a (attrs t) with Some _ => create_keeps_existing | None => false end); [inversion E; subst; same|].
-    unfold mk_default in E. destruct d as [c|].
+    unfold mk_default, default_is_scalar in E. destruct d as [c|].
     + destruct (kind_of c) as [td|]; [|inversion E; subst; same].
       destruct (default_type_bad td t0); inversion E; subst; clear E; [same|]. simpl. split.
       * intros b j id H. apply entry_put in H. destruct H as [[_ [m [St Lk]]]|[_ H]]; [|left; exact H].
@@ -195,7 +195,7 @@ Proof.
   - (* CreateSized *)
     unfold do_create_sized in E.
     destruct (match lookup a (attrs t) with Some _ => create_keeps_existing | None => false end); [inversion E; subst; same|].
-    unfold mk_default in E. destruct d as [c|].
+    unfold mk_default, default_is_scalar in E. destruct d as [c|].
     + destruct (kind_of c) as [td|]; [|inversion E; subst; same].
       destruct (default_type_bad td t0); inversion E; subst; clear E; [same|]. simpl. split.
       * intros b j id H. apply entry_put in H. destruct H as [[_ [m [St Lk]]]|[_ H]]; [discriminate|left; exact H].
@@ -211,7 +211,7 @@ Proof.
     destruct (match lookup a (attrs t) with Some _ => register_keeps_existing | None => false end); [inversion E; subst; same|].
     destruct (negb (Z.of_nat (length rows) =? sn t)); [inversion E; subst; same|].
     destruct (sn t =? 0); [inversion E; subst; same|].
-    unfold mk_default in E. destruct d as [c|].
+    unfold mk_default, default_is_scalar in E. destruct d as [c|].
     + destruct (kind_of c) as [td|]; [|inversion E; subst; same].
       destruct (default_type_bad td t0); inversion E; subst; clear E; [same|]. simpl. split.
       * intros b j id H. apply entry_put in H. destruct H as [[_ [m [St Lk]]]|[_ H]]; [discriminate|left; exact H].
@@ -259,7 +259,7 @@ Proof.
   set (t := tick s) in *. clearbody t. clear s. fold (mono t s').
   assert (Z0 := mono_refl t).
   assert (MK : forall tt k d e0 f0, mk_default (hp t) tt k d = inr (e0, f0) -> (length (hp t) <= length e0)%nat).
-  { intros tt k d e0 f0 H. unfold mk_default in H. destruct d as [c|].
+  { intros tt k d e0 f0 H. unfold mk_default, default_is_scalar in H. destruct d as [c|].
     - destruct (kind_of c); [|discriminate]. destruct (default_type_bad _ _); inversion H; subst; lia.
     - destruct (k =? 1); inversion H; subst; [lia|]. rewrite app_length; simpl; lia. }
   destruct o; simpl in E.
